@@ -28,7 +28,8 @@ MEM = ('m',)
 D = 3           # pointers older than this (behind the frontier) lose their exact distance when a symbol is read
 DMAX = 8        # exact pointers may be *computed* this far behind the frontier (error positions)
 FUZZ_MAX = 2
-PIN = ('pin',)  # some pointer into the input (coarse register content)
+PIN = ('pin', None)  # some pointer into the input (coarse register content); 2nd field: at the pebble? (True/False/'f' pending)
+PEB_CLAMP = 6
 UNK = ('u',)    # undecided truth value caused by a coarse register: both outcomes are explored
 W = 3           # look-back window of symbol values
 
@@ -169,10 +170,20 @@ class St(object):
         return s
 
 
-def shift_val(v, newrank):
+def shift_val(v, newrank, pa=None, tracking=False):
     if v[0] == 'p':
         r = v[1] - 1
-        return ('p', r) if r >= -D else ('pp', 0, newrank)
+        if r >= -D:
+            return ('p', r)
+        d = None
+        if tracking:
+            if pa is None or pa == 'far':
+                d = 'x'
+            else:
+                d = -pa - r
+                if d < 0 or d > FUZZ_MAX:
+                    d = 'x'        # behind the pebble, or too far before it to reach it by the small offsets the code adds
+        return ('pp', 0, newrank, d)
     if v[0] == 'len':
         return ('len', v[1] - 1)
     return v
@@ -198,8 +209,11 @@ class Machine(object):
         self.harness = {'URI', 'STATE', 'ERRPOS', 'OCT'}   # caller-side objects of the analysis harness
         self.concrete_heap = False      # concrete mode: heap blocks keep their contents
         self.heap_zero = {}
+        self.alloc_counter = 0
         self.literals = False           # concrete mode: string literals are values
         self.input_writable = False     # concrete mode: in-place transformers may store into the text
+        self.tracking = False           # pebble mode: pointers know whether they sit on the pebble
+        self.pa = None                  # pebble age: None unseen, k symbols ago, 'far', 'end'
         self.coarse_regs = True         # URI text-range fields hold NULL / placeholder / 'some input pointer'
         self.optimistic = False         # pre-analysis mode: fill-array cells are unknown, unknown branches fork
         self.fresh = False              # the symbol at rel -1 was applied in this step
@@ -289,7 +303,12 @@ class Machine(object):
             f = p[1] + k
             if f > FUZZ_MAX:
                 raise Imprecise('pointer far behind the frontier advanced by more than %d at %s' % (FUZZ_MAX, fmt_loc(e.loc)))
-            return ('pp', f, p[2])
+            d = p[3] if len(p) > 3 else None
+            if isinstance(d, int):
+                d = d - k
+                if d < 0:
+                    d = 'x'
+            return ('pp', f, p[2], d)
         if t == 'a':
             path = p[2]
             if path and isinstance(path[-1], int):
@@ -304,6 +323,8 @@ class Machine(object):
         if t == 't':
             return TOP
         if t == 'pin':
+            if self.tracking:
+                raise Imprecise('arithmetic on a coarse register pointer while tracking boundaries at %s' % fmt_loc(e.loc))
             return PIN
         raise Imprecise('pointer arithmetic on %r at %s' % (p, fmt_loc(e.loc)))
 
@@ -349,7 +370,7 @@ class Machine(object):
             raise Finding('no-input-write', 'input-write', loc, 'stores through a pointer into the input text')
         obj, path = pl
         if obj[0] == 'H':
-            self.obs.append(('heap-store', obj, path, v, loc))
+            self.obs.append(('heap-store', obj, path, v, loc, self.at_of(st, v, loc) if (self.tracking and v[0] in ('p', 'pp', 'e', 'pin')) else None))
             if self.concrete_heap:
                 st.env[pl] = v
             return
@@ -360,7 +381,7 @@ class Machine(object):
                     raise Finding('range-inside-input', 'reg-beyond:%s' % '.'.join(path), loc,
                                   'stores a pointer %d past the last character known to lie inside the range into %s'
                                   % (v[1], '.'.join(path)))
-                v = PIN
+                v = ('pin', self.at_of(st, v, loc))
         if self.cellwatch and obj[0] == 'L' and len(path) == 2 and path[0] in self.cellwatch:
             self.obs.append(('cell-write', obj[1], path[0], path[1]))
         if obj[0] == 'G' and obj[1] not in self.harness:
@@ -457,6 +478,31 @@ class Machine(object):
         if k == 'str':
             return TOP
         raise Imprecise('unsupported expression %s at %s' % (k, fmt_loc(e.loc)))
+
+    def at_of(self, st, v, loc=None):
+        """is the input position v the pebbled position? True / False / 'f' (decided by the next symbol)"""
+        if not self.tracking:
+            return None
+        pa = self.pa
+        t = v[0]
+        if t == 'pin':
+            return v[1]
+        if t == 'e':
+            if not st.eof:
+                raise Imprecise('afterLast stored before the end of the range was seen at %s' % fmt_loc(loc))
+            return pa == 'end'
+        if t == 'p':
+            r = v[1]
+            if isinstance(pa, int):
+                return r == -pa
+            if pa == 'end':
+                return st.eof and r == 0
+            if pa is None:
+                return 'f' if (r == 0 and not st.eof) else False
+            return False
+        if t == 'pp':
+            return v[3] == 0
+        return False
 
     def int_cast(self, v, ty, e):
         if v[0] == 'i':
@@ -1023,6 +1069,9 @@ class Runner(Machine):
         ins = fi.byid[fr[1]].ins[fr[2]]
         dst = self.loc_of(st, ins.dst) if ins.dst is not None else None
         if ok:
+            if self.concrete_heap:
+                self.alloc_counter += 1
+                site = '%s@%d' % (site, self.alloc_counter)     # concrete mode: every block is its own object
             st.heap[site] = min(2, st.heap.get(site, 0) + 1)
             v = ('a', ('H', site), ())
             if self.concrete_heap:
@@ -1047,17 +1096,26 @@ class Runner(Machine):
         fr = st.frames[-1]
         fr[1], fr[2] = bid, 0
 
-    def apply_symbol(self, st, cls):
+    def apply_symbol(self, st, cls, bit=0):
+        """self.pa must already be the pebble age AFTER this symbol"""
         env = st.env
         newrank = 1 + max([v[2] for v in env.values() if v[0] == 'pp'] + [-1])
         for k, v in list(env.items()):
             t = v[0]
             if t == 'p' or t == 'len':
-                env[k] = shift_val(v, newrank)
+                env[k] = shift_val(v, newrank, self.pa, self.tracking)
+            elif t == 'pin' and v[1] == 'f':
+                env[k] = ('pin', bool(bit))
         st.win = ((cls,) + st.win)[:W]
 
-    def apply_eof(self, st):
+    def apply_eof(self, st, at_end=False):
         st.eof = True
+        if self.tracking:
+            for k, v in list(st.env.items()):
+                if v[0] == 'pin' and v[1] == 'f':
+                    st.env[k] = ('pin', bool(at_end))
+                elif v[0] == 'p' and v[1] == 0:
+                    pass
 
     # ---- canonical form
     def canon(self, st):
@@ -1099,7 +1157,7 @@ class Runner(Machine):
             rm = dict((r, i) for i, r in enumerate(ranks))
             for k, v in list(env.items()):
                 if v[0] == 'pp':
-                    env[k] = ('pp', v[1], rm[v[2]])
+                    env[k] = ('pp', v[1], rm[v[2]]) + tuple(v[3:])
         st.win = st.win[:need]
         st.steps = 0
         kept = []
@@ -1109,7 +1167,13 @@ class Runner(Machine):
             pkey = (tuple(tuple(f) for f in st.frames), base, st.win, st.eof,
                     frozenset(st.heap.items()), frozenset(st.flags.items()))
             if not self.optimistic:
-                needs = self.cellneeds.get(pkey) if self.cellneeds is not None else None
+                lk = pkey
+                if self.tracking:
+                    # the pre-analysis ran without pebble information: look its verdict up under the pebble-free view
+                    nb = frozenset((k, (('pin', None) if v[0] == 'pin' else (v[:3] + (None,) if v[0] == 'pp' else v)))
+                                   for k, v in base)
+                    lk = (pkey[0], nb) + pkey[2:]
+                needs = self.cellneeds.get(lk) if self.cellneeds is not None else None
                 for k, v in vals:
                     if needs is None or (k[0][1], k[1][0], k[1][1]) in needs:
                         env[k] = v
